@@ -132,6 +132,10 @@ func (c *Collection) GetAndTouchRaw(key string, exp Exp) (val []byte, cas CAS, e
 		}
 		return
 	})
+	if err == nil {
+		// A touch posts no event, so it has to arm the expiry timer itself:
+		c.bucket.expManager.scheduleExpirationAtOrBefore(exp)
+	}
 	traceExit("GetAndTouchRaw", err, "cas=0x%x, val %s", cas, val)
 	return
 }
